@@ -268,7 +268,7 @@ namespace
 
     // ---------------------------------------------------------------- igris::ring<T, Alloc>
     // ops: [0 push v] [1 emplace v] [2 pop] [3 write n v] [4 read n] [5 get_last offset count order] [6 fixup idx]
-    //      [7 distance a b] [8 resize n] [9 reset] [10 clear] [11 last/tail/head queries]
+    //      [7 distance a b] [8 resize n] [9 reset] [10 clear] [11 last/tail/head queries] [12 external producer k v: fills k slots, set_last_index]
     template <class T> struct TypedRingWorld : World
     {
         bool bytes; // T == char: read/write available
@@ -301,7 +301,8 @@ namespace
                 else if (k < 89) p.ops.push_back({8, r.range(1, tier == THOROUGH ? 40 : 16)});
                 else if (k < 91) p.ops.push_back({9});
                 else if (k < 93) p.ops.push_back({10});
-                else p.ops.push_back({11, (int64_t)r.below(1000)});
+                else if (k < 97) p.ops.push_back({11, (int64_t)r.below(1000)});
+                else p.ops.push_back({12, r.chance(1, 2) ? (int64_t)cap + 1 : (int64_t)r.below(cap + 2), v});
             }
             return p;
         }
@@ -340,7 +341,7 @@ namespace
                 check("init");
                 for (auto &o : p.ops)
                 {
-                    int kind = (int)mod(arg(o, 0), 12);
+                    int kind = (int)mod(arg(o, 0), 13);
                     int h0 = rg.head_index(), t0 = rg.tail_index();
                     switch (kind)
                     {
@@ -511,6 +512,31 @@ namespace
                             m.pop_front();
                         }
                         break;
+                    case 12:
+                    {
+                        // external (DMA style) producer: fills up to k free slots from the head on, wrapping at the end of the
+                        // storage, then reports the index of the last slot it wrote with set_last_index()
+                        size_t room = (size_t)cap - m.size();
+                        size_t k = std::min<size_t>((size_t)mod(arg(o, 1), cap + 2), room);
+                        if (k == 0) break;
+                        int size = (int)rg.size();
+                        int idx = rg.head_index();
+                        int last = idx;
+                        for (size_t i = 0; i < k; i++)
+                        {
+                            T v = val(arg(o, 2), 5 + (int)i);
+                            rg.get(idx) = v;
+                            m.push_back(v);
+                            hist.push_back(v);
+                            pushed++;
+                            last = idx;
+                            idx = idx + 1 == size ? 0 : idx + 1;
+                        }
+                        rg.set_last_index(last);
+                        if (last == size - 1) probe("set_last_index_on_last_slot");
+                        tr.ev("external producer %zu last=%d", k, last);
+                        break;
+                    }
                     }
                     if (rg.head_index() < h0 || rg.tail_index() < t0) { wrapped = true; probe("wrapped"); }
                     check("after-op");
